@@ -13,6 +13,7 @@ import (
 	"sort"
 	"strconv"
 	"sync"
+	"sync/atomic"
 	"time"
 
 	"github.com/zalf-rpm/Hermes2Go/hermes"
@@ -123,13 +124,14 @@ type gateState struct {
 	runOf   map[int64]int // goroutine id -> run (1-based)
 	arrived map[int]bool  // runs blocked at the gate
 	allowed map[int]int   // run -> number of passes granted and not yet used
+	barrier map[int]*int32 // mode contend: the runs released together leave the gate together (spin barrier, no lock)
 	free    bool          // schedule exhausted: everybody passes
 }
 
 func replaySchedule(id int, mode string, sc []schedStep, needs [][]string, dir string, emit func(map[string]interface{})) error {
 	session := hermes.NewHermesSession() // fresh pool
 	defer session.Close()
-	gs := &gateState{runOf: map[int64]int{}, arrived: map[int]bool{}, allowed: map[int]int{}}
+	gs := &gateState{runOf: map[int64]int{}, arrived: map[int]bool{}, allowed: map[int]int{}, barrier: map[int]*int32{}}
 	gs.cond = sync.NewCond(&gs.mu)
 	hermes.VerifGate = func(point, key string) {
 		if point != "pool.get" {
@@ -151,7 +153,16 @@ func replaySchedule(id int, mode string, sc []schedStep, needs [][]string, dir s
 			gs.allowed[run]--
 		}
 		gs.arrived[run] = false
+		b := gs.barrier[run]
+		gs.barrier[run] = nil
 		gs.mu.Unlock()
+		if b != nil {
+			// the gate's own mutex hands the released runs out one after the other; the barrier lets them reach the
+			// pool within a few instructions of each other (bounded spin: a run that is not scheduled in time goes alone)
+			atomic.AddInt32(b, -1)
+			for spins := 0; atomic.LoadInt32(b) > 0 && spins < 2000000; spins++ {
+			}
+		}
 	}
 	defer func() { hermes.VerifGate = nil; hermes.VerifEvent = nil }()
 	// the pool's own event is raised inside the pool mutex: order of the accesses and size of the cache, per goroutine
@@ -231,8 +242,14 @@ func replaySchedule(id int, mode string, sc []schedStep, needs [][]string, dir s
 	}
 	release := func(runs []int) {
 		gs.mu.Lock()
+		var b *int32
+		if len(runs) > 1 {
+			n := int32(len(runs))
+			b = &n
+		}
 		for _, r := range runs {
 			gs.allowed[r]++
+			gs.barrier[r] = b
 		}
 		gs.cond.Broadcast()
 		gs.mu.Unlock()
